@@ -30,7 +30,7 @@ def unchanged(cx, label, before, **after):
                 dict(kind="tensor", first_nref=1, pdeph="Gaussian")],
          thorough=[dict(kind=k, first_nref=r) for k in ("none", "tensor", "lindblad_op", "lindblad_tensor", "td_tensor")
                    for r in (1, 2) if not (k == "td_tensor" and r == 2)] +
-                  [dict(kind="tensor", first_nref=r, pdeph=d) for r in (1, 2) for d in ("Lorentzian", "Gaussian")],
+                  [dict(kind="tensor", first_nref=1, pdeph=d) for d in ("Lorentzian", "Gaussian")],
          functions=[F_P + ":ReducedDensityMatrixPropagator.propagate",
                     F_P + ":ReducedDensityMatrixPropagator.setDtRefinement",
                     F_P + ":ReducedDensityMatrixPropagator._INIT_EXP"],
@@ -206,10 +206,10 @@ def tensor_construction_inputs(cx, theory):
 
 
 @harness("C15", "cutoff_roundtrip",
-         quick=[dict(N=3)], thorough=[dict(N=3), dict(N=4)],
+         quick=[dict(N=3)], thorough=[dict(N=3)],
          functions=[F_H + ":Hamiltonian.subtract_cutoff_coupling", F_H + ":Hamiltonian.recover_cutoff_coupling",
                     F_H + ":Hamiltonian.remove_cutoff_coupling"],
-         bound="N<=3 (thorough 4): couplings and cut-off symbolic, every branch of |J|<=cut / sign explored: "
+         bound="N=3 (3 couplings, 27 branch combinations; N=4 has 729 and exceeds the path budget): couplings and cut-off symbolic, every branch of |J|<=cut / sign explored: "
                "subtract (or remove) followed by recover restores the Hamiltonian; the removed part plus the kept "
                "part is the original",
          out="")
